@@ -135,7 +135,10 @@ pub fn compile(args: CompileArgs) -> Result<Vec<CompiledPipeline>, CompileError>
 
     if let Some(name) = args.pipeline_name {
         if output_pipelines.len() > 1 {
-            panic!("Multiple pipelines with the given name: {}", name);
+            return Err(CompileError::Text(format!(
+                "Shader contains multiple pipelines with the name: {}",
+                name
+            )));
         }
 
         if output_pipelines.is_empty() {
